@@ -118,7 +118,7 @@ def gen_case(rng, quick=True):
     return c
 
 
-def gen_frame_prog(rng, size, jobsize):
+def gen_frame_prog(rng, size, jobsize, faults=False):
     """One frame of a multi-frame program: a few continue / flush calls (with mid-frame parameter changes zstd allows under
     multithreading, ZSTD_sizeof_CCtx queries, a rare abort or worker-side allocation failure), then end after exactly `size` bytes."""
     ops = []
@@ -140,7 +140,7 @@ def gen_frame_prog(rng, size, jobsize):
         if rng.random() < 0.04:
             ops.append("R")
             return ops, True
-        if rng.random() < 0.03:
+        if faults and rng.random() < 0.12:
             ops.append("X%d" % rng.randint(0, 3))
     ops.append("G%d:%d" % (left, rng.choice([1 << 22, 100000, 16384, 3000])))
     return ops, False
@@ -182,7 +182,7 @@ def gen_case_multi(rng):
     """2-4 frames on one context, parameters / dictionaries switched between them; nbWorkers stays (lock-stepped)."""
     nbw = rng.choice([1, 2, 2, 3, 4])
     jobsize = rng.choice([512 * 1024, MB, 600000])
-    st = dict(jobsize=jobsize)
+    st = dict(jobsize=jobsize, faults=rng.random() < 0.3)
     total = 0
     ops = []
     for f in range(rng.randint(2, 4)):
@@ -191,7 +191,9 @@ def gen_case_multi(rng):
         js = st["jobsize"] or MB
         size = int(js * rng.choice([0.4, 1.0, 1.5, 2.2, 3.1])) + rng.choice([0, 1, 17])
         size = max(530000, min(size, 4 * MB))
-        fo, st["aborted"] = gen_frame_prog(rng, size, js)
+        fo, st["aborted"] = gen_frame_prog(rng, size, js, st["faults"])
+        if f == 0:
+            ops = [o for o in ops if o != "Z"]     # (the compared region starts at the first call: no query before it)
         ops += fo
         total += size
     c = Case(nbw=nbw, jobsize=jobsize, level=rng.choice([1, 1, 2, 3]), ovlog=rng.choice([0, 0, 3, 6, 9]), rsync=0, ldm=0, cksum=rng.choice([0, 1]),
@@ -210,6 +212,7 @@ def gen_case_multi(rng):
 
 
 FINDING_PROGS = {
+    "P1006:1,G1200000:4194304,T2,s1000:4194304,G1200000:4194304": "mt-inputhint-null-mtctx-after-pool-switch",
     "C1048576:4194304,X0,f120000:0,C1600000:0,E4194304": "C11-ldm-wait-after-worker-error",
     "f100000:0,X1,C3600000:1,E4194304": "C11-serial-turn-skipped-after-error",
     "C1048576:4194304,X0,c100000:0,C3600000:100,E4194304": "C11-serial-turn-skipped-after-error",
@@ -310,6 +313,14 @@ def corpus(rng):
     C.append(Case(nbw=2, jobsize=T, kind=3, ldm=1, wlog=20, dict=0, isize=4000000, prog="D1,G1700000:4194304,D2,G1200000:4194304,P160:0,D1,G700000:4194304", tag="ldm-dict-switch"))
     C.append(Case(nbw=2, jobsize=T, kind=1, isize=3000000, prog="c600000:4194304,P107:4,c600000:4194304,P100:5,P105:3,c600000:1000,Z,P102:12,G700000:4194304", tag="midframe-params"))
     C.append(Case(nbw=2, jobsize=T, kind=1, isize=3000000, prog="c1100000:1000,Z,c600000:1000,Z,X0,c600000:0,Z,G600000:4194304,G500000:4194304", tag="sizeof-midframe"))
+    # ZSTD_CCtx_refThreadPool between frames (fix 7b3a25e drops the multithreaded context), then the older ZSTD_compressStream() with a
+    # stable input buffer smaller than a block: the call returns before the frame is initialised and computes its input-size hint
+    # (finding mt-inputhint-null-mtctx-after-pool-switch); shared pool <-> private pool switches with and without an abandoned session
+    C.append(Case(nbw=2, jobsize=T, kind=1, isize=3000000, prog="P1006:1,G1200000:4194304,T2,s1000:4194304,G1200000:4194304", tag="pool-switch-stable-hint"))
+    C.append(Case(nbw=2, jobsize=T, kind=1, isize=4000000, prog="T2,G1200000:4194304,T0,G1200000:100000,T2,c1100000:0,R,T0,G1200000:4194304", tag="pool-switch"))
+    C.append(Case(nbw=2, jobsize=T, kind=1, isize=4000000, prog="T3,c1100000:100,s600000:4096,Z,G600000:100000,W1,G1200000:4194304,T0,W3,G400000:4194304", tag="pool-switch-resize"))
+    # the context is freed in the middle of a frame whose jobs run on a shared pool (fix f02e35a: ZSTDMT_freeCCtx waits for them)
+    C.append(Case(nbw=2, jobsize=T, kind=1, level=3, isize=4000000, prog="T2,G600000:4194304,c1700000:0", tag="pool-shared-free-midframe"))
     out = []
     for c in C:
         out.append(c.clone(policy="r", fam=6))
@@ -401,7 +412,7 @@ def build_model_case(tr):
     # the model.  A step line is printed when the step ENDS, so the first caller line after "PROBE begin" is still the last section
     # of the call (compared, except for where the caller stands), and the first caller line after "PROBE end" is the last probe step.
     probe = False
-    pend_on = pend_off = False
+    pevents = []       # PROBE begin / end lines seen since the caller's last stop
     early_done = {}    # tid -> its current serial section was already stepped at the inner unlock of ldmWindowMutex
     last_c = None      # the ZSTD_compressStream2 call whose return value is awaited
     for ln in tr.lines:
@@ -427,6 +438,8 @@ def build_model_case(tr):
                 if not st_frame:
                     last_c = ["C", t[2], t[3], t[4], None]
                     ops.append(last_c)
+            elif t[1] == "pool":
+                unmodelled = "ZSTD_CCtx_refThreadPool: the multithreaded context is rebuilt around another pool (outside the model)"
             elif t[1] == "workers":
                 unmodelled = "nbWorkers changed between frames (POOL_resize is outside the model)"
         elif ln.startswith("INITP "):
@@ -450,9 +463,9 @@ def build_model_case(tr):
         elif ln.startswith("FAULT"):
             fault_pending = int(ln.split()[1])
         elif ln == "PROBE begin":
-            pend_on = True
+            pevents.append("B")
         elif ln == "PROBE end":
-            pend_off = True
+            pevents.append("E")
         elif ln.startswith("S "):
             head, _, rest = ln.partition(" mt ")
             t = head.split()
@@ -462,16 +475,21 @@ def build_model_case(tr):
             if st is not None and not all(k in st for k in ("mt", "ser", "pool", "jobs", "own", "th")):
                 st = None
             nsteps += 1
-            in_probe = probe or pend_on
+            in_probe = probe or ("B" in pevents)
             if tid == 0:
-                if pend_on and pend_off:
-                    pend_on = pend_off = False       # the query took no lock
-                elif pend_on:
-                    pend_on, probe = False, True     # this line: last section before the query
-                elif pend_off:
-                    pend_off, probe = False, False   # this line: last step of the query
-                    continue
-                elif probe:
+                # the line describes the step the caller made BEFORE it reached its present stop: it is a step of a query iff the caller
+                # was inside a query at its previous stop; the PROBE lines printed since then tell where it is now
+                was_probe = probe
+                if pevents:
+                    probe = pevents[-1] == "B"
+                    pevents = []
+                if was_probe:
+                    if st is not None:
+                        # (the state is the caller's up to its next lock: when an initialisation follows the query, this is where
+                        # allJobsCompleted == 1 is seen)
+                        last_alldone = st["mt"][4]
+                        if after_init_marker and st["mt"][4] == "1":
+                            seen_one = True
                     continue
             if kind == "M":
                 held[tid] = held.get(tid, 0) + 1
@@ -783,20 +801,20 @@ def process_chunk(args):
 
 
 class Runner:
-    def __init__(self, ctx, variant="o1"):
+    def __init__(self, ctx, variant="o1", defs=(), model=None):
         self.ctx = ctx
         self.variant = variant
         kw = dict(variant=variant, pre_include=PRE, lib_exclude=["pool.c", "zstdmt_compress.c"], extra_flags=["-w", "-DZV_MAXSTEPS=16384"])
         try:
-            self.h = core.build_harness("c11_mt", HARNESS_SRC, **kw)
+            self.h = core.build_harness("c11_mt", HARNESS_SRC, extra_defs=list(defs), **kw)
         except RuntimeError as e:
             if "jobCompleted" not in str(e):
                 raise
             # ZSTDMT_jobDescription has no jobCompleted member (the sources predate fix c655545): build without reading it; the model's
             # flag then has no counterpart and the lock-step reports it
             ctx.notes["harness_fallback"] = "no jobCompleted member in ZSTDMT_jobDescription"
-            self.h = core.build_harness("c11_mt", HARNESS_SRC, extra_defs=["-DC11_NO_JOBCOMPLETED"], **kw)
-        self.m = core.build_extracted("c11model", "Extract/Extract_C11.v", "c11_driver.ml")
+            self.h = core.build_harness("c11_mt", HARNESS_SRC, extra_defs=list(defs) + ["-DC11_NO_JOBCOMPLETED"], **kw)
+        self.m = model or core.build_extracted("c11model", "Extract/Extract_C11.v", "c11_driver.ml")
         self.n = 0
 
     def run(self, cases, tag, jobs=None):
@@ -888,6 +906,55 @@ def search(ctx, runner, c, n=96):
     out = [r for r in out if not (r["end"] or "").startswith("STEPLIMIT")]
     out.sort(key=lambda r: r["steps"])
     return out
+
+
+ASSERT_PROGS = {
+    # finding mt-toflushnow-assert-empty-job (repaired by d05af12): ZSTD_toFlushNow asserted `consumed < src.size` for the empty posted job of a
+    # frame ended without input, and for a failed job at doneJobID that the next call has not noticed yet
+    "c0:100,e0:0,e0:0,E100000": "mt-toflushnow-assert-empty-job",
+    "c900000:4194304,X0,C1200000:4096,c600001:4194304,C200000:4096,G134464:3000": "mt-toflushnow-assert-empty-job",
+}
+
+
+def assert_pass(ctx, runner, rng):
+    """The same real code built with -DDEBUGLEVEL=1 (zstd's assertions enabled, library and zstdmt_compress.c / pool.c alike) under the
+    adversarial schedulers: progress queries and ZSTD_sizeof_CCtx between the calls, empty jobs, worker-side failures, aborts, multi-frame
+    programs.  An assertion that fires is a crash of a legal call sequence in a debug build.  Oracles + lock-step as in the main pass."""
+    try:
+        dbg = Runner(ctx, runner.variant, defs=["-DDEBUGLEVEL=1"], model=runner.m)
+    except Exception as e:  # noqa
+        ctx.notes["assert_pass"] = "build failed: %s" % (str(e)[-300:],)
+        return
+    T = 512 * 1024
+    cs = []
+    for prog in ASSERT_PROGS:
+        for fam, arg in ((2, 0), (2, 1), (5, 0), (6, 0), (0, 0), (3, 0)):
+            cs.append(Case(nbw=2, jobsize=T, kind=1, isize=2500000, probe=1, prog=prog, policy="r", fam=fam, famarg=arg, seed=rng.getrandbits(40)))
+    cs += [c.clone(probe=1) for c in corpus(rng) if c.tag in ("abort-empty-job", "fault-empty-job", "empty-frame-mt", "fault-0", "fault-1", "fault-2", "progress",
+                                                             "sizeof-midframe", "midframe-params", "ldm-error-window", "continue-after-end", "ring-full-2w")]
+    cs += [gen_case_multi(rng).clone(probe=1) for _ in range(30 if ctx.quick else 600)]
+    cs = [c.clone(prog=",".join(o for o in c.prog.split(",") if o != "Z")) for c in cs]     # (two queries in a row are handled, but keep this pass simple)
+    t0 = time.time()
+    rs = dbg.run(cs, "assert")
+    core.log("C11: assertion pass %d cases %.1fs" % (len(cs), time.time() - t0))
+    ctx.notes["assert_pass_cases"] = len(cs)
+    seen = 0
+    for r in rs:
+        end = r["end"] or "NONE"
+        if end.startswith("STEPLIMIT"):
+            continue
+        ctx.count(("assert", r["sig"], end.split()[0]), nontrivial=r["model_steps"] >= 20)
+        c = case_of_line(r["case"])
+        bad = None
+        if r["oracles"]:
+            bad = r["oracles"][0]
+        elif not end.startswith("END"):
+            bad = "run did not finish: %s" % end
+        if bad and seen < 3:
+            seen += 1
+            what = "zstd built with assertions (DEBUGLEVEL=1) fails on a legal call sequence under a concrete schedule: %s" % bad
+            ctx.violation(dict(kind="schedule", config=c.config(), variant=runner.variant, defs="-DDEBUGLEVEL=1", tag="assert", observed=dict(end=end, oracles=r["oracles"][:3])),
+                          what=what[:400], key=ASSERT_PROGS.get(c.prog))
 
 
 def proof_search(ctx, runner):
@@ -985,6 +1052,16 @@ def run(ctx):
     for c in cs[:5]:
         ctx.sample(c.line(0))
     report(ctx, runner, rs, "random")
+    # several frames per context with parameter / dictionary switches between them (third wave)
+    n = 60 if ctx.quick else 1500
+    cs = [gen_case_multi(rng) for _ in range(n)]
+    t0 = time.time()
+    rs = runner.run(cs, "multi")
+    core.log("C11: multi-frame %d cases %.1fs" % (len(cs), time.time() - t0))
+    for c in cs[:2]:
+        ctx.sample(c.line(0))
+    report(ctx, runner, rs, "multi")
+    assert_pass(ctx, runner, rng)
     r_check(ctx, runner, rng)
     if not ctx.quick:
         tsan(ctx, rng)
@@ -1039,6 +1116,8 @@ def replay(ctx, runner):
         ctx.proof_verdict(None)
         return
     c = parse_config(r["config"])
+    if r.get("defs"):
+        runner = Runner(ctx, runner.variant, defs=r["defs"].split(), model=runner.m)     # e.g. the assertion pass: -DDEBUGLEVEL=1
     rs = runner.run([c], "replay")
     ctx.sample(c.line(0))
     for x in rs:
